@@ -444,6 +444,55 @@ func ens_flushFrame_seq(w *messageWriter, final bool, ret0 error) bool {
 	return !w.compress && (final || w.frameType == continuationFrame && w.pos == maxFrameHeaderSize)
 }
 
+// the same header predicate, read off the transport's ghost stream at position o
+func spec_wsHeaderOnWire(w io.Writer, o int, fin, rsv1 bool, opcode int, masked bool, n int) bool {
+	b0, b1 := ghost_wr_at(w, o), ghost_wr_at(w, o+1)
+	if (b0&0x80 != 0) != fin || (b0&0x40 != 0) != rsv1 || b0&0x30 != 0 || int(b0&0x0f) != opcode || (b1&0x80 != 0) != masked {
+		return false
+	}
+	l7 := int(b1 & 0x7f)
+	switch {
+	case n <= 125:
+		return l7 == n
+	case n <= 65535:
+		return l7 == 126 && int(ghost_wr_at(w, o+2))<<8|int(ghost_wr_at(w, o+3)) == n
+	}
+	if l7 != 127 || ghost_wr_at(w, o+2)&0x80 != 0 {
+		return false
+	}
+	var v uint64
+	for i := 0; i < 8; i++ {
+		v = v<<8 | uint64(ghost_wr_at(w, o+2+i))
+	}
+	return v == uint64(n)
+}
+
+// what a server's flushFrame leaves on the transport: one frame - a valid header for the payload length, the pending
+// bytes, the caller's extra bytes - and nothing else
+//@ ensures (*messageWriter).flushFrame C13.frame.wire.server.length
+func ens_flushFrame_wireLen(w *messageWriter, old_w messageWriter, extra []byte, ret0 error) bool {
+	c := w.c
+	if ret0 != nil || !c.isServer {
+		return true
+	}
+	n := old_w.pos - maxFrameHeaderSize + len(extra)
+	return ghost_wr_len(c.conn) == ghost_old_wr_len(c.conn)+spec_wsHeaderLen(false, n)+n
+}
+
+//@ ensures (*messageWriter).flushFrame C13.frame.wire.server.header
+func ens_flushFrame_wireHdr(w *messageWriter, old_w messageWriter, final bool, extra []byte, ret0 error) bool {
+	c := w.c
+	if ret0 != nil || !c.isServer {
+		return true
+	}
+	n := old_w.pos - maxFrameHeaderSize + len(extra)
+	return spec_wsHeaderOnWire(c.conn, ghost_old_wr_len(c.conn), final, old_w.compress, old_w.frameType, false, n)
+}
+
+// (that the payload bytes on the transport are the pending bytes followed by extra follows from C13.frame.payload.* -
+// what is handed to Conn.write - and C13.write.transport - what Conn.write puts on the transport; the composed
+// clause over flushFrame was not decided by the solvers and is not claimed)
+
 // after a non-final frame the writer is ready for the next one
 //@ ensures (*messageWriter).flushFrame C13.flush.ready
 func ens_flushFrame_ready(w *messageWriter, final bool, ret0 error) bool {
@@ -708,3 +757,23 @@ func inv_NextReader0(c *Conn) bool {
 }
 
 //@ assigns (*Conn).NextReader c.reader, c.messageReader, c.readErr, c.readErrCount, c.readRemaining, c.readFinal, c.readLength, c.readDecompress, c.readMaskPos, c.readMaskKey, c.writeErr, c.writeErrMu, ghost.rd(c.br), ghost.ioerr, ghost.lock(c.mu), ghost.wr(c.conn)
+
+// ---------- C13: Conn.WriteMessage, the server's single-frame fast path ----------
+// (no unfinished message writer, no compression negotiated)
+//@ requires (*Conn).WriteMessage
+func req_ConnWriteMessage(c *Conn) bool {
+	return spec_wfWriterLock(c) && !c.isWriting && c.writer == nil && c.isServer && c.newCompressionWriter == nil && len(c.writeBuf) > maxFrameHeaderSize
+}
+
+// a message of any size goes out as ONE final frame: a valid header for its opcode and length, then len(data) bytes
+//@ ensures (*Conn).WriteMessage C13.writemessage.single-frame
+func ens_ConnWriteMessage(c *Conn, messageType int, data []byte, ret0 error) bool {
+	if ret0 != nil {
+		return true
+	}
+	t, o, n := c.conn, ghost_old_wr_len(c.conn), len(data)
+	return (messageType == TextMessage || messageType == BinaryMessage || messageType == CloseMessage || messageType == PingMessage || messageType == PongMessage) &&
+		ghost_wr_len(t) == o+spec_wsHeaderLen(false, n)+n && spec_wsHeaderOnWire(t, o, true, false, messageType, false, n)
+}
+
+//@ assigns (*Conn).WriteMessage c.writeBuf[*], c.isWriting, c.writer, c.writeErr, c.writeErrMu, ghost.lock(c.mu), ghost.wr(c.conn), ghost.ioerr
